@@ -280,6 +280,11 @@ func newWriteCmdArgsFromInputInstances(cmd *cobra.Command, inputInstances []*inp
 	if err != nil {
 		return nil, err
 	}
+	// nonsense in the override flags is refused also when there is no first
+	// instance to take them
+	if err := overrideInstanceFromFlags(cmd, &op.Instance{}); err != nil {
+		return nil, err
+	}
 	instances := make([]op.Instance, len(inputInstances))
 	for i, x := range inputInstances {
 		v := op.Instance{
